@@ -60,7 +60,7 @@ def miri_extra(prop, argv_seeds, miri_seeds):
 
 META["C03"] = {
     "title": "Sources and single-input operators compute their documented sequence",
-    "rule": "cases = (operator chain AST, input script). Enumerated: every single-input operator x every parameter in 0..n+1 / predicate family x every script over {0,1,2} up to length n (quick 3, thorough 6) x terminal {none,complete,error} x sources {Subject, create (sync and stashed-handle), from_iter}; every basic source alone and under every operator; plus seeded random chains of depth 2..5 with post-terminal events. Long scripts (counter long_script_cases): chains of 1-2 operators with parameters up to 12 over scripts of up to 40 items from an alphabet of 12 values (operators that remember what they have seen or keep the last n items). One long chain in ten is pairwise + distinct / distinct_until_changed: the harness item type hashes a pair by its first component only (Hash coarser than Eq, which is legal), so comparing hashes instead of values is observable. Large parameters (counter large_parameter_cases): take / skip / take_last / skip_last / element_at / buffer_with_count with counts 1024..5000 over from_iter of 1024, 1025 and 3000 items. A case is non-trivial when the reference model's expected output contains an item, or terminates although the input did not, or ends with an error; distinct = distinct hash of (AST, script).",
+    "rule": "cases = (operator chain AST, input script). Enumerated: every single-input operator x every parameter in 0..n+1 / predicate family x every script over {0,1,2} up to length n (quick 3, thorough 6) x terminal {none,complete,error} x sources {Subject, create (sync and stashed-handle), from_iter}; every basic source alone and under every operator; plus seeded random chains of depth 2..5 with post-terminal events. Long scripts (counter long_script_cases): chains of 1-2 operators with parameters up to 12 over scripts of up to 40 items from an alphabet of 12 values (operators that remember what they have seen or keep the last n items). One long chain in ten is pairwise + distinct / distinct_until_changed: the harness item type hashes a pair by its first component only (Hash coarser than Eq, which is legal), so comparing hashes instead of values is observable. Large parameters (counter large_parameter_cases): take / skip / take_last / skip_last / element_at / buffer_with_count with counts 1024..5000 over from_iter of 1024, 1025 and 3000 items. A hot source is shared: in half of the hot-source cases (a function of the script; counter hot_cases_behind_a_closed_pipeline_on_the_same_source) another pipeline was registered on the same subject first and is already over - unsubscribed at once, or a take(1) that finishes by itself - when the events arrive; the pipeline under test is owed the same sequence. A case is non-trivial when the reference model's expected output contains an item, or terminates although the input did not, or ends with an error; distinct = distinct hash of (AST, script).",
     "assumptions": COMMON_ASSUME + [
         "reference list semantics are written from the doc comments in src/observable.rs; where they are silent (take(0) on an unterminated input) both behaviours are accepted",
         "buffer_with_count(0) and float `average` are exercised only in the typed static battery",
@@ -69,7 +69,7 @@ META["C03"] = {
     "level_text": "Exploration: every enumerated (operator, parameter, script, source) case and every sampled random chain is executed against the real operators and compared item-by-item with a reference model; no claim beyond the cases counted in the evidence.",
     "level_note": "Trusted: the reference model (harness/src/model.rs), the recording probe, rustc. The model's relaxations are listed in DESIGN.md §5 C03.",
     "design_ref": "DESIGN.md §5 C03",
-    "require": {"quick": {"operators_covered": 45, "long_script_cases": 40000}, "thorough": {"operators_covered": 45, "long_script_cases": 2000000}},
+    "require": {"quick": {"operators_covered": 45, "long_script_cases": 40000, "hot_cases_behind_a_closed_pipeline_on_the_same_source": 30000}, "thorough": {"operators_covered": 45, "long_script_cases": 2000000, "hot_cases_behind_a_closed_pipeline_on_the_same_source": 30000}},
 }
 
 META["C04"] = {
@@ -285,7 +285,7 @@ META["C13"] = {
 
 META["C17"] = {
     "title": "is_closed() is sound and composites tear down late additions",
-    "rule": "two batteries. (a) composite histories: random histories of length <= 8 quick / <= 13 thorough over append / append-nested-composite / clone / unsubscribe / retain / sample on MultiSubscription and MultiSubscriptionThreads with tracked children: every child appended before unsubscribe() is unsubscribed exactly once, every remaining clone reports closed afterwards, a child appended afterwards has been unsubscribed by the time append returns. (b) random pipelines over the whole catalogue (so that unit, Subscriber, pair, composite, task-handle, ref-count, finalizer and boxed subscriptions all occur), is_closed() of the returned subscription sampled before every explorer step: once it returned true no notification may be delivered through that subscription and it may never return false again. (c) a direct battery on ZipSubscription (all four closed/open combinations of its halves), SubscriptionGuard, MutRc<Option<S>> handle clones and BoxSubscription with counting children. (d) MultiSubscriptionThreads under the lock-point scheduler: unsubscribe() on one thread, 1-3 append() calls on a second, is_closed() samples on a third, over 0-2 children appended up front; afterwards the composite reports closed, so every child must have been unsubscribed exactly once, and is_closed() may not return to false once the composite holds an open child. (f) a thread asking is_closed() six times on the subscription of hot.observe_on_threads / delay_threads(0) / debounce / buffer_with_time while the source thread emits 0-2 items and completes or fails and a worker thread runs the scheduled tasks (counter is_closed_sampling_races): after a sample returned true nothing may begin on the probe and no later sample may be false. (g) is_closed() on a clone of a SubjectThreads from one thread while others emit, terminate, subscribe and unsubscribe: nothing is delivered to anybody after it returned true. (e) unsubscribe() racing the worker thread that runs the scheduled task of observe_on_threads / delay_threads / subscribe_on / debounce / throttle_time / buffer_with_time / buffer_with_count_and_time / sample(interval) (task handles): nothing may begin on the probe after unsubscribe() returned. Histories in (a) also append children to a nested composite that was itself appended earlier, possibly after is_closed() was asked on the outer one (counter histories_with_a_child_added_to_a_nested_composite), and contain children whose own unsubscribe() appends one more child to the composite (an append in the middle of the teardown, counter histories_with_an_append_during_teardown): it must not be left running. subscription_types_covered lists every subscription type that occurred. Non-trivial: (a) an append fell after the unsubscribe; (b) is_closed() was sampled both false and true in the run; distinct = hash(case).",
+    "rule": "two batteries. (a) composite histories: random histories of length <= 8 quick / <= 13 thorough over append / append-nested-composite / clone / unsubscribe / retain / sample on MultiSubscription and MultiSubscriptionThreads with tracked children: every child appended before unsubscribe() is unsubscribed exactly once, every remaining clone reports closed afterwards, a child appended afterwards has been unsubscribed by the time append returns. (b) random pipelines over the whole catalogue (so that unit, Subscriber, pair, composite, task-handle, ref-count, finalizer and boxed subscriptions all occur), is_closed() of the returned subscription sampled before every explorer step: once it returned true no notification may be delivered through that subscription and it may never return false again. (c) a direct battery on ZipSubscription (all four closed/open combinations of its halves), SubscriptionGuard, MutRc<Option<S>> handle clones and BoxSubscription with counting children. The battery also holds the handle of subscribe_on / delay_subscription whose subscribing task died half way (merge of a live subject with a `create` whose user closure panics; the scheduler keeps the payload in the handle): the subject branch keeps delivering (counter half_wired_handles_that_kept_delivering), so the handle may not report closed. (d) MultiSubscriptionThreads under the lock-point scheduler: unsubscribe() on one thread, 1-3 append() calls on a second, is_closed() samples on a third, over 0-2 children appended up front; afterwards the composite reports closed, so every child must have been unsubscribed exactly once, and is_closed() may not return to false once the composite holds an open child. (f) a thread asking is_closed() six times on the subscription of hot.observe_on_threads / delay_threads(0) / debounce / buffer_with_time while the source thread emits 0-2 items and completes or fails and a worker thread runs the scheduled tasks (counter is_closed_sampling_races): after a sample returned true nothing may begin on the probe and no later sample may be false. (g) is_closed() on a clone of a SubjectThreads from one thread while others emit, terminate, subscribe and unsubscribe: nothing is delivered to anybody after it returned true. (e) unsubscribe() racing the worker thread that runs the scheduled task of observe_on_threads / delay_threads / subscribe_on / debounce / throttle_time / buffer_with_time / buffer_with_count_and_time / sample(interval) (task handles): nothing may begin on the probe after unsubscribe() returned. Histories in (a) also append children to a nested composite that was itself appended earlier, possibly after is_closed() was asked on the outer one (counter histories_with_a_child_added_to_a_nested_composite), and contain children whose own unsubscribe() appends one more child to the composite (an append in the middle of the teardown, counter histories_with_an_append_during_teardown): it must not be left running. subscription_types_covered lists every subscription type that occurred. Non-trivial: (a) an append fell after the unsubscribe; (b) is_closed() was sampled both false and true in the run; distinct = hash(case).",
     "assumptions": COMMON_ASSUME + [
         "`false` is always acceptable (the property is one-directional)",
         "a live composite without children answers is_closed() == true (vacuously: nothing can be delivered through it) until its first child is appended; this is how delay/observe_on report closed after their last task, and it is not treated as 'returned true, later false'",
@@ -294,7 +294,7 @@ META["C17"] = {
     "level_text": "Exploration over sampled pipelines/schedules and composite histories.",
     "level_note": "Trusted: probe, tracked child subscription, explorer.",
     "design_ref": "DESIGN.md §5 C17",
-    "require": {"quick": {"appends_after_unsubscribe": 3000, "runs_where_is_closed_returned_true": 20000, "subscription_types_covered": 13, "histories_with_an_append_during_teardown": 5000, "histories_with_a_child_added_to_a_nested_composite": 5000, "composite_thread_races": 4000, "thread_schedules": 4000, "is_closed_sampling_races": 4000}, "thorough": {"subscription_types_covered": 13, "composite_thread_races": 200000, "thread_schedules": 150000, "is_closed_sampling_races": 150000}},
+    "require": {"quick": {"appends_after_unsubscribe": 3000, "runs_where_is_closed_returned_true": 20000, "subscription_types_covered": 13, "half_wired_handles_that_kept_delivering": 2, "histories_with_an_append_during_teardown": 5000, "histories_with_a_child_added_to_a_nested_composite": 5000, "composite_thread_races": 4000, "thread_schedules": 4000, "is_closed_sampling_races": 4000}, "thorough": {"subscription_types_covered": 13, "half_wired_handles_that_kept_delivering": 2, "composite_thread_races": 200000, "thread_schedules": 150000, "is_closed_sampling_races": 150000}},
 }
 
 META["C18"] = {
